@@ -76,7 +76,9 @@ CallsFor(e, h, k) == {i \in DOMAIN e.calls : e.calls[i].h = h /\ e.calls[i].hand
 
 C14(e, p, o) ==
   LET rng == Rng(e)
-      removed == (p.RH \ o.RH) \cap rng
+      \* removed: no longer served by hash, or no longer served by height (a header the Store stops serving as part of
+      \* its chain has been removed, whatever is left of it in the datastore)
+      removed == ((p.RH \ o.RH) \cup (p.R \ o.R)) \cap rng
   IN
        If(\E h \in removed, k \in {1, 2, 3} :
              ~(Cardinality(CallsFor(e, h, k)) = 1 /\ \A i \in CallsFor(e, h, k) : e.calls[i].out = "ok"),
